@@ -29,7 +29,9 @@ def _hist(pid, technique, text):
 _hist("C01", "runtime monitor: per-session view replayer over the recorded byte stream + flush comparison with the server's message list",
       "Exploration: forced skeletons and seeded random multi-session histories on the real server in process; every response a session receives is replayed "
       "into its view (EXISTS never shrinks, EXPUNGE/FETCH name existing positions, no EXPUNGE during non-UID FETCH/STORE/SEARCH, UIDs per cell stable and ascending) "
-      "and at every NOOP/CHECK/IDLE flush the view must equal the server's message list.")
+      "and at every NOOP/CHECK/IDLE flush the view must equal the server's message list.  Scheduled tier: concurrent command sets (MOVE into the selected mailbox, "
+      "STORE landing during a MOVE, EXPUNGE beside APPEND/COPY, POP3 QUIT with marks, plus C10's sets) run under the deterministic scheduler with an always-on "
+      "view monitor on every session.")
 _hist("C02", "runtime monitor: write-once (mailbox, UIDVALIDITY, UID)->message ledger and UIDNEXT/UIDVALIDITY monotonicity over recorded histories",
       "Exploration: histories with expunge, copy/move-in, pack (lowered threshold), rename, delete/re-create, deliveries and orderly restarts; after every step an "
       "observer re-reads all mailboxes and the ledger rules (ascending, never reused, UIDNEXT above all and non-decreasing, APPENDUID/COPYUID honest, UIDVALIDITY "
